@@ -73,6 +73,7 @@ func c11Boundary(length int) []*int64 {
 type c11Plan struct {
 	nA, nC, nD, nE int
 	nF             int    // part F (b13_helpers.go): arrays of 65 536 elements and more
+	nG             int    // part G (b15_overlap.go): overlap probe / k-th-call fault probe, after F so that older replays keep their index
 	bOff           [8]int // first case index of part B for each length (relative to the start of B)
 	nB             int
 }
@@ -88,7 +89,9 @@ func c11Layout(tier string) c11Plan {
 	p.nD = 1000
 	p.nE = 60
 	p.nF = 40
+	p.nG = 160
 	if tier == "thorough" {
+		p.nG = 6000
 		p.nD = 120000
 		p.nE = 6000
 		p.nF = 2000
@@ -98,7 +101,7 @@ func c11Layout(tier string) c11Plan {
 
 func (c11) Count(tier string) int {
 	p := c11Layout(tier)
-	return p.nA + p.nB + p.nC + p.nD + p.nE + p.nF
+	return p.nA + p.nB + p.nC + p.nD + p.nE + p.nF + p.nG
 }
 
 // c11Adjust: PySlice_AdjustIndices for one bound.
@@ -593,6 +596,17 @@ func c11Ptr(v int64) *int64 { return &v }
 func (c11) Exec(seed int64, i int, tier string) Record {
 	plan := c11Layout(tier)
 	r := CaseRng(seed, "C11", i)
+	if i >= plan.nA+plan.nB+plan.nC+plan.nD+plan.nE+plan.nF {
+		// part G, classes overlap-probe / kth-fault-probe (b15_overlap.go): slices, unions of slices, `..[a:b:c]` of ONE
+		// parsed function on arrays of different lengths at overlapping times; a function failing on its k-th call only
+		rec := b15Case("C11", r)
+		if rec.Info == nil {
+			rec.Info = map[string]interface{}{}
+		}
+		rec.Info["part"] = "G"
+		rec.Tags = append(rec.Tags, "part:G")
+		return rec
+	}
 	b := &c11Bundle{rec: Record{Info: map[string]interface{}{}}, tags: map[string]bool{}}
 	var items []c11Item
 	var spell *Rng       // nil: plainest spelling
